@@ -4,8 +4,11 @@ CONSTANTS
     MaxNum = 4
     MaxCid = 98
     GenMaxNum = 3
+    LivePatterns = {"distinct", "empty1", "equal2"}
+    LiveFull = TRUE
     RangeHist = "full"
     MaxHist = 3
+    InstanceMemory = FALSE
     FindPrefersDirectChild = FALSE
     ExcuseDecoy = TRUE
 SPECIFICATION Spec
